@@ -6,6 +6,7 @@ package eth2wrap
 // scheduling points at the cache's locks and inside the beacon-node stub (DESIGN.md §5 C20).
 
 import (
+	"errors"
 	"context"
 	"fmt"
 	"os"
@@ -38,7 +39,10 @@ type c20bn struct {
 	ver   map[eth2p0.Epoch]int
 	calls []c20call
 	hook  func() // scheduling point inside a call (Part 2)
+	fail  int    // 1: requests fail with an error; 2: requests are answered with an empty response object
 }
+
+var c20errBN = errors.New("beacon node unavailable (scripted)")
 
 func (b *c20bn) Address() string { return "stub" }
 
@@ -100,16 +104,31 @@ func (b *c20bn) enter(kind string, epoch eth2p0.Epoch, idxs []eth2p0.ValidatorIn
 
 func (b *c20bn) AttesterDuties(_ context.Context, o *eth2api.AttesterDutiesOpts) (*eth2api.Response[[]*eth2v1.AttesterDuty], error) {
 	v := b.enter("att", o.Epoch, o.Indices)
+	if b.fail == 1 {
+		return nil, c20errBN
+	} else if b.fail == 2 {
+		return &eth2api.Response[[]*eth2v1.AttesterDuty]{}, nil
+	}
 	return &eth2api.Response[[]*eth2v1.AttesterDuty]{Data: b.att(o.Epoch, o.Indices, v), Metadata: b.meta(o.Epoch, v)}, nil
 }
 
 func (b *c20bn) ProposerDuties(_ context.Context, o *eth2api.ProposerDutiesOpts) (*eth2api.Response[[]*eth2v1.ProposerDuty], error) {
 	v := b.enter("pro", o.Epoch, o.Indices)
+	if b.fail == 1 {
+		return nil, c20errBN
+	} else if b.fail == 2 {
+		return &eth2api.Response[[]*eth2v1.ProposerDuty]{}, nil
+	}
 	return &eth2api.Response[[]*eth2v1.ProposerDuty]{Data: b.pro(o.Epoch, o.Indices, v), Metadata: b.meta(o.Epoch, v)}, nil
 }
 
 func (b *c20bn) SyncCommitteeDuties(_ context.Context, o *eth2api.SyncCommitteeDutiesOpts) (*eth2api.Response[[]*eth2v1.SyncCommitteeDuty], error) {
 	v := b.enter("syn", o.Epoch, o.Indices)
+	if b.fail == 1 {
+		return nil, c20errBN
+	} else if b.fail == 2 {
+		return &eth2api.Response[[]*eth2v1.SyncCommitteeDuty]{}, nil
+	}
 	return &eth2api.Response[[]*eth2v1.SyncCommitteeDuty]{Data: b.syn(o.Epoch, o.Indices, v), Metadata: b.meta(o.Epoch, v)}, nil
 }
 
@@ -223,9 +242,14 @@ type c20op struct {
 	Kind  string `json:"kind"` // att / pro / syn / reorg / trim
 	Epoch uint64 `json:"epoch"`
 	Idxs  []int  `json:"idxs,omitempty"`
+	// beacon-node fault during this request: 1 = every beacon-node call fails, 2 = it answers with an empty response object
+	Fail int `json:"bn_fault,omitempty"`
 }
 
 func (o c20op) String() string {
+	if o.Fail > 0 {
+		return fmt.Sprintf("%s(%d,%v,bn-fault%d)", o.Kind, o.Epoch, o.Idxs, o.Fail)
+	}
 	if o.Kind == "reorg" || o.Kind == "trim" {
 		return fmt.Sprintf("%s(%d)", o.Kind, o.Epoch)
 	}
@@ -306,10 +330,21 @@ func (w *c20world) apply(o c20op) (viol []c20viol) {
 	idxs := c20idxs(o.Idxs)
 	arg := append([]eth2p0.ValidatorIndex(nil), idxs...)
 	nCalls := len(w.bn.calls)
+	w.bn.fail = o.Fail
 	got, gotMeta, raw, err := w.request(o.Kind, ep, arg)
+	w.bn.fail = 0
+	if err != nil && o.Fail > 0 && len(w.bn.calls) > nCalls {
+		return nil // the beacon node had to be asked and failed: an error is the right answer; nothing may have been cached (judged by the later requests)
+	}
 	if err != nil {
 		bad("kind=request-error", "%s failed: %v", o, err)
 		return
+	}
+	if o.Fail == 2 && len(w.bn.calls) > nCalls {
+		// the beacon node answered with an empty object: whatever the cache returns now is not judged, but it must not be kept
+		// (later requests are compared with the healthy beacon node as usual)
+		c20scribble(raw)
+		return nil
 	}
 	want, wantMeta := w.bn.direct(o.Kind, ep, idxs, w.bn.ver[ep])
 	if strings.Join(got, "|") != strings.Join(want, "|") {
@@ -479,6 +514,12 @@ func c20partA(t *testing.T, r *enumx.Run) {
 			}
 		}
 		alpha = append(alpha, c20op{Kind: "reorg", Epoch: 4}, c20op{Kind: "reorg", Epoch: 5}, c20op{Kind: "trim", Epoch: 9}, c20op{Kind: "trim", Epoch: 8})
+		// beacon-node faults: a request whose beacon-node call fails (or is answered with an empty object), for every kind of the set
+		for _, k := range kinds {
+			for _, f := range []int{1} { // (an empty answer without error is a legitimate answer, not a fault: not scripted)
+				alpha = append(alpha, c20op{Kind: k, Epoch: 6, Idxs: []int{1, 2, 3}, Fail: f}, c20op{Kind: k, Epoch: 6, Idxs: []int{2}, Fail: f})
+			}
+		}
 		d := depth
 		if len(kinds) > 1 {
 			d--
